@@ -4,21 +4,32 @@ From Cedar Require Import Lib.Bytes gen.Consts Model.Msg Model.Privacy Model.AdW
 Import ListNotations.
 Local Open Scope N_scope.
 
-(* an observed frame: sealed?, eom, plaintext payload as handed to Stream.WriteFrame *)
-Definition oframe := (bool * bool * bytes)%type.
+(* one run of the real serialiser on a real Stream in state (key, enc) and of the peer's GetClassAdRaw *)
+Record run := {
+  r_key : bool; r_enc : bool; r_opts : N;
+  r_wl : nat;                        (* index into the case's whitelist table *)
+  r_ea : nat;                        (* index into the same table, for EncryptedAttrs *)
+  r_peer : option (Z * Z * Z);
+  r_frames : list (bool * bool * (N * N * bytes * bytes));   (* sealed, eom, digest of the plaintext payload *)
+  (* expression strings GetClassAdRaw returned, as indices into the ad's attributes
+     (inl i = "name_i = text_i") or literally, and the two type names; None = it failed *)
+  r_recv : option (list (nat + bytes) * bytes * bytes)
+}.
 
 Inductive case :=
 (* classad.IsPrivateAttributeV1 / V2 on one name *)
 | CPriv (name : bytes) (v1 v2 : bool)
-(* the real filter functions: names in, names kept out *)
-| CFilter (opts : N) (wl enc_attrs : list bytes) (peer : option (Z * Z * Z)) (names : list bytes) (kept : list bytes)
-(* the two filter functions called directly (hook): wl = None -> filterAttributesByPrivacy *)
-| CFilterRaw (exP exV2 : bool) (wl : option (list bytes)) (enc_attrs : list bytes) (names kept : list bytes)
-(* the real serialiser on a real Stream in state (key, enc): frames written *)
-| CPut (key enc : bool) (opts : N) (wl enc_attrs : list bytes) (peer : option (Z * Z * Z))
-       (attrs : list (bytes * bytes)) (mytype targettype : bytes) (observed : list oframe)
-(* GetClassAdRaw of the peer on those frames: expression strings and type names, or failure *)
-| CRecv (key enc : bool) (frames : list oframe) (observed : option (list bytes * bytes * bytes)).
+(* the two filter functions called directly (hook) on [names]; wl = None -> filterAttributesByPrivacy;
+   kept = indices of the names returned *)
+| CFilterRaw (names : list bytes) (tbl : list (list bytes))
+             (runs : list (bool * bool * option nat * nat * list nat))
+(* the whole decision through PutClassAdWithOptions: options, whitelist, EncryptedAttrs, peer -> indices kept *)
+| CFilter (names : list bytes) (tbl : list (list bytes))
+          (runs : list (N * nat * nat * option (Z * Z * Z) * list nat))
+| CAd (attrs : list (bytes * bytes)) (mytype targettype : bytes) (tbl : list (list bytes)) (runs : list run).
+
+(* n copies of a byte string: compact notation for long generated values *)
+Definition rep (n : N) (b : bytes) : bytes := concat (repeat b (N.to_nat n)).
 
 Definition mkcfg opts wl ea peer : config :=
   {| c_opts := opts; c_whitelist := wl; c_enc_attrs := ea; c_peer := peer |}.
@@ -29,10 +40,6 @@ Fixpoint list_eqb {A} (eqb : A -> A -> bool) (a b : list A) : bool :=
   | x :: a', y :: b' => eqb x y && list_eqb eqb a' b'
   | _, _ => false
   end.
-
-Definition oframe_eqb (t : tframe) (o : oframe) : bool :=
-  let '(sealed, (d, e)) := t in let '(s', e', d') := o in
-  Bool.eqb sealed s' && Bool.eqb e e' && bytes_eqb d d'.
 Fixpoint all2 {A B} (f : A -> B -> bool) (a : list A) (b : list B) : bool :=
   match a, b with
   | [], [] => true
@@ -40,31 +47,57 @@ Fixpoint all2 {A B} (f : A -> B -> bool) (a : list A) (b : list B) : bool :=
   | _, _ => false
   end.
 
-Definition to_tframe (o : oframe) : tframe := let '(s, e, d) := o in (s, (d, e)).
+Definition dig_eqb (a b : N * N * bytes * bytes) : bool :=
+  let '(l1, s1, h1, t1) := a in let '(l2, s2, h2, t2) := b in
+  (l1 =? l2) && (s1 =? s2) && bytes_eqb h1 h2 && bytes_eqb t1 t2.
+
+Definition oframe_eqb (t : tframe) (o : bool * bool * (N * N * bytes * bytes)) : bool :=
+  let '(sealed, (d, e)) := t in let '(s', e', dg) := o in
+  Bool.eqb sealed s' && Bool.eqb e e' && dig_eqb (digestN d) dg.
+
+Definition tbl_get (tbl : list (list bytes)) (i : nat) : list bytes := nth i tbl [].
+
+(* names tagged with their index, so that a kept list can be compared by index *)
+Fixpoint number {A} (i : nat) (l : list A) : list (nat * A) :=
+  match l with [] => [] | x :: r => (i, x) :: number (S i) r end.
+
+Definition idx_attrs (names : list bytes) : list attr :=
+  map (fun p => (snd p, be_enc 4 (N.of_nat (fst p)))) (number 0 names).
+Definition kept_idx (l : list attr) : list nat := map (fun a => N.to_nat (be_dec (snd a))) l.
+
+Definition expr_matches (attrs : list (bytes * bytes)) (m : bytes) (o : nat + bytes) : bool :=
+  match o with
+  | inl i => match nth_error attrs i with Some a => bytes_eqb m (expr_text a) | None => false end
+  | inr b => bytes_eqb m b
+  end.
+
+Definition check_run (attrs : list (bytes * bytes)) (my tg : bytes) (tbl : list (list bytes)) (r : run) : bool :=
+  let st := s_finish (put_ad (mkcfg (r_opts r) (tbl_get tbl (r_wl r)) (tbl_get tbl (r_ea r)) (r_peer r))
+                             (sstate_init (r_key r) (r_enc r))
+                             {| ad_attrs := attrs; ad_mytype := my; ad_targettype := tg |}) in
+  all2 oframe_eqb (s_frames st) (r_frames r) &&
+  match get_ad_raw (treader_of (r_key r) (r_enc r) (s_frames st)), r_recv r with
+  | (_, MOk (es, my', tg')), Some (oes, omy, otg) =>
+      all2 (expr_matches attrs) es oes && bytes_eqb my' omy && bytes_eqb tg' otg
+  | (_, MErr _), None => true
+  | _, _ => false
+  end.
 
 Definition check_case (c : case) : bool :=
   match c with
   | CPriv name v1 v2 => Bool.eqb (is_private_v1 name) v1 && Bool.eqb (is_private_v2 name) v2
-  | CFilter opts wl ea peer names kept =>
-      list_eqb bytes_eqb (map fst (attrs_to_send (mkcfg opts wl ea peer) (map (fun n => (n, [])) names))) kept
-  | CFilterRaw exP exV2 wl ea names kept =>
-      let attrs := map (fun n => (n, [])) names in
-      list_eqb bytes_eqb
-        (map fst match wl with
-                 | None => filter_privacy attrs exP exV2 ea
-                 | Some w => filter_whitelist attrs w exP exV2 ea
-                 end) kept
-  | CPut key enc opts wl ea peer attrs my tg obs =>
-      let st := s_finish (put_ad (mkcfg opts wl ea peer) (sstate_init key enc)
-                  {| ad_attrs := attrs; ad_mytype := my; ad_targettype := tg |}) in
-      all2 oframe_eqb (s_frames st) obs
-  | CRecv key enc frames obs =>
-      match get_ad_raw (treader_of key enc (map to_tframe frames)), obs with
-      | (_, MOk (es, my, tg)), Some (es', my', tg') =>
-          list_eqb bytes_eqb es es' && bytes_eqb my my' && bytes_eqb tg tg'
-      | (_, MErr _), None => true
-      | _, _ => false
-      end
+  | CFilterRaw names tbl runs =>
+      forallb (fun '(exP, exV2, wl, ea, kept) =>
+        list_eqb Nat.eqb
+          (kept_idx match wl with
+                    | None => filter_privacy (idx_attrs names) exP exV2 (tbl_get tbl ea)
+                    | Some w => filter_whitelist (idx_attrs names) (tbl_get tbl w) exP exV2 (tbl_get tbl ea)
+                    end) kept) runs
+  | CFilter names tbl runs =>
+      forallb (fun '(opts, wl, ea, peer, kept) =>
+        list_eqb Nat.eqb
+          (kept_idx (attrs_to_send (mkcfg opts (tbl_get tbl wl) (tbl_get tbl ea) peer) (idx_attrs names))) kept) runs
+  | CAd attrs my tg tbl runs => forallb (check_run attrs my tg tbl) runs
   end.
 
 Fixpoint mism (i : nat) (cs : list case) : list nat :=
